@@ -62,6 +62,7 @@ def list_case(seed):
     g = DocGen(seed, dict(hostile=0.0))
     mech = rng.choice(["numpr", "numpr", "style", "link"])
     paras, items = [], []
+    feats = set()
     for _ in range(rng.randint(1, 9)):
         r = rng.random()
         txt = el("w:r", [], [el("w:t", [], [g.word(4)])])
@@ -85,19 +86,36 @@ def list_case(seed):
             else:
                 num = "1" if ordered else "2"
             numpr = el("w:numPr", [], [el("w:ilvl", [("w:val", str(d - 1))]), el("w:numId", [("w:val", num)])])
-            paras.append(el("w:p", [], [el("w:pPr", [], [numpr]), txt]))
+            how = rng.random()
+            if mech == "style" and how < 0.6:
+                # paragraph-style numbering: the level is found through the w:pStyle named by a w:lvl of numbering.xml
+                ppr = [el("w:pStyle", [("w:val", "LS%s%d" % ("o" if ordered else "b", d - 1))])]
+                feats.add("style-numbering")
+            elif mech == "style" and how < 0.8:
+                # both: the paragraph's own numPr wins over the numbering of its style (a different level and kind)
+                ppr = [el("w:pStyle", [("w:val", "LS%s%d" % ("b" if ordered else "o", (d + 1) % 5))]), numpr]
+                feats.add("numpr-wins")
+            else:
+                sid = rng.choice([None, None, "Normal", "Unknown1", "ListPara"])
+                ppr = ([el("w:pStyle", [("w:val", sid)])] if sid else []) + [numpr]
+                if sid:
+                    feats.add("li-style-" + sid)
+            paras.append(el("w:p", [], [el("w:pPr", [], ppr), txt]))
             items.append(("li", d, ordered))
-    lv = lambda fmt: [el("w:lvl", [("w:ilvl", str(i))], [el("w:numFmt", [("w:val", fmt)])] if fmt else []) for i in range(6)]
+    lv = lambda fmt, tag=None: [el("w:lvl", [("w:ilvl", str(i))], ([el("w:numFmt", [("w:val", fmt)])] if fmt else []) +
+                                ([el("w:pStyle", [("w:val", "LS%s%d" % (tag, i))])] if tag and mech == "style" else [])) for i in range(6)]
     numbering = el("w:numbering", [], [
-        el("w:abstractNum", [("w:abstractNumId", "0")], lv(rng.choice(["decimal", "lowerRoman", None]))),
-        el("w:abstractNum", [("w:abstractNumId", "1")], lv("bullet")),
+        el("w:abstractNum", [("w:abstractNumId", "0")], lv(rng.choice(["decimal", "lowerRoman", None]), "o")),
+        el("w:abstractNum", [("w:abstractNumId", "1")], lv("bullet", "b")),
         el("w:abstractNum", [("w:abstractNumId", "2")], [el("w:numStyleLink", [("w:val", "ListNum")])]),
         el("w:num", [("w:numId", "1")], [el("w:abstractNumId", [("w:val", "0")])]),
         el("w:num", [("w:numId", "2")], [el("w:abstractNumId", [("w:val", "1")])]),
         el("w:num", [("w:numId", "3")], [el("w:abstractNumId", [("w:val", "2")])])])
     styles = el("w:styles", [], [el("w:style", [("w:type", "paragraph"), ("w:styleId", "HN%d" % n)], [el("w:name", [("w:val", rng.choice(["heading %d", "Heading %d", "HEADING %d"]) % n)])]) for n in range(1, 7)] +
                 [el("w:style", [("w:type", "paragraph"), ("w:styleId", "Heading%d" % n)], []) for n in range(1, 7)] +
+                [el("w:style", [("w:type", "paragraph"), ("w:styleId", "LS%s%d" % (t, i))], [el("w:name", [("w:val", "List %s %d" % (t, i))])]) for t in "ob" for i in range(6)] +
                 [el("w:style", [("w:type", "paragraph"), ("w:styleId", "Normal")], [el("w:name", [("w:val", "Normal")])]),
+                 el("w:style", [("w:type", "paragraph"), ("w:styleId", "ListPara")], [el("w:name", [("w:val", "List Paragraph")])]),
                  el("w:style", [("w:type", "numbering"), ("w:styleId", "ListNum")], [el("w:pPr", [], [el("w:numPr", [], [el("w:numId", [("w:val", "1")])])])])])
     where = rng.choice(["body", "body", "cell", "note"])
     rels = []
@@ -110,7 +128,7 @@ def list_case(seed):
         body = [el("w:p", [], [el("w:r", [], [el("w:footnoteReference", [("w:id", "2")])])])]
         parts.append({"name": "word/footnotes.xml", "xml": el("w:footnotes", [], [el("w:footnote", [("w:id", "2")], paras)])})
     parts.append({"name": "word/document.xml", "xml": el("w:document", [], [el("w:body", [], body)])})
-    return {"parts": parts, "options": {}, "features": ["where-" + where, "mech-" + mech], "key": "c08-%d" % seed, "items": items, "where": where, "noshrink": True}
+    return {"parts": parts, "options": {}, "features": ["where-" + where, "mech-" + mech] + sorted(feats), "key": "c08-%d" % seed, "items": items, "where": where, "noshrink": True}
 
 
 def blocks_spec(case, r):
